@@ -73,3 +73,24 @@ Theorem C09_accept_iff :
   is_future (from_unix_ns iv ts) (from_unix_ns iv now) = false.
 Proof. exact @accept_iff. Qed.
 Print Assumptions C09_accept_iff.
+
+(** "its signature verifies over its complete header": the byte string that is signed
+    (bytesForDigest) changes whenever any single header field other than Sign changes, and
+    does not depend on Sign (byte-level codec model of types/blockchain.go, tied to the
+    source by the field-list translator of C19). *)
+From Coq Require Import String.
+From Verif Require Import Common.Bytes Codec.Fields Codec.Digest Codec.DigestProofs.
+Open Scope string_scope.
+
+Theorem C09_sign_digest_covers_all_but_sign : forall f h1 h2,
+  In f header_struct_fields -> f <> "Sign" -> header_wf h1 -> header_wf h2 ->
+  agree_except header hget f h1 h2 -> hget f h1 <> hget f h2 ->
+  sign_digest_input h1 <> sign_digest_input h2.
+Proof. exact sign_digest_covers_all_but_sign. Qed.
+Print Assumptions C09_sign_digest_covers_all_but_sign.
+
+Theorem C09_sign_input_omits_only_sign :
+  (forall h1 h2, agree_except header hget "Sign" h1 h2 -> sign_digest_input h1 = sign_digest_input h2) /\
+  (forall f, In f header_struct_fields -> f <> "Sign" -> In f header_sign_fields).
+Proof. exact sign_input_omits_only_sign. Qed.
+Print Assumptions C09_sign_input_omits_only_sign.
